@@ -100,9 +100,77 @@ impl Prop for NoFault {
     }
 }
 
+
+/// The nesting skeletons of C03 (loops, matches, blocks, lambdas and task blocks with break / continue /
+/// return / ? / ! and every assignment form), executed: whatever the checker accepts must also RUN
+/// without an internal fault.
+pub struct SkeletonRun;
+
+impl Prop for SkeletonRun {
+    type Case = crate::checks::c03::SkelCase;
+    fn name(&self) -> &'static str {
+        "skeleton_no_fault"
+    }
+    fn rule(&self) -> &'static str {
+        "one case = a type-plausible skeleton program of C03 (1-2 functions and a main body, each a random nesting of if / while / for / match / block / lambda / task with break, continue, return, ?, ! and every assignment operator on every target form); programs the compiler accepts are run for at most 300000 steps at budgets 1000 and 1; the run may finish, stop with a documented runtime error or reach the step cap (tasks may wait for each other), but must not end in an internal VM fault or host panic; non-trivial = accepted and the program contains a lambda or a task; distinct by program text"
+    }
+    fn n_cases(&self, tier: Tier) -> u32 {
+        tier.pick(2500, 60000)
+    }
+    fn strategy(&self, tier: Tier, _f: &Findings) -> BoxedStrategy<Self::Case> {
+        let d = tier.pick(3u8, 4u8);
+        proptest::collection::vec(any::<u16>(), 6..tier.pick(120, 300)).prop_map(move |tape| crate::checks::c03::SkelCase { tape, max_depth: d }).boxed()
+    }
+    fn judge(&self, c: &Self::Case, env: &mut Env) -> Verdict {
+        let (text, labels) = crate::checks::c03::skeleton(c);
+        let mut st = CaseStats::one();
+        let variants = vec![
+            Variant { budgets: vec![1000], ..Variant::sel(0) },
+            Variant { budgets: vec![1], ..Variant::sel(0) },
+        ];
+        let opts = RunOpts { max_steps: 300_000, max_calls: 400_000, ..RunOpts::default() };
+        let outs = try_exec!(env.run_var(&single(text.clone()), "main.abra", &opts, &variants));
+        st.evals = outs.len() as u64;
+        let Some(first) = outs.first() else { return Verdict::Pass(st) };
+        if matches!(first.compile, FrontVerdict::Diag(_)) {
+            st.label("rejected");
+            return Verdict::Pass(st);
+        }
+        if matches!(first.compile, FrontVerdict::Panic(_)) {
+            // accepted-but-does-not-compile is C03's subject
+            st.label("compile-panic-counted-for-C03");
+            return Verdict::Pass(st);
+        }
+        for (r, v) in outs.iter().zip(variants.iter()) {
+            if let Some(f) = crash_failure(r) {
+                let mut f = f.feat(format!("budget:{}", v.budgets[0]));
+                for l in labels.iter().filter(|l| l.starts_with("lambda-in") || l.starts_with("task-in") || l.contains("return") || l.contains("break") || l.contains("continue")) {
+                    f = f.feat(format!("uses:{l}"));
+                }
+                return Verdict::Fail(f.detail(json!({"text": text, "end": format!("{:?}", r.end).chars().take(300).collect::<String>()})));
+            }
+            st.label(match &r.end {
+                RunEnd::Done => "end:done",
+                RunEnd::Error { .. } => "end:runtime-error",
+                RunEnd::Cap => "end:cap",
+                _ => "end:other",
+            });
+        }
+        st.label("accepted");
+        if labels.iter().any(|l| l.starts_with("lambda-in") || l.starts_with("task-in")) {
+            st.nt(&text);
+            if text.len() < 2500 {
+                st.sample = Some(json!({"text": text}));
+            }
+        }
+        Verdict::Pass(st)
+    }
+}
+
 pub fn run(ctx: &mut Ctx) {
     ctx.assume("the worker is built with debug assertions, so every typed access checks its runtime tag");
     ctx.assume("a watchdog expiry or the step cap is inconclusive, never a violation");
     ctx.prop(&crate::g::srccase::SrcProp { name: "program" });
     ctx.prop(&NoFault);
+    ctx.prop(&SkeletonRun);
 }
